@@ -42,6 +42,17 @@ theorem wWStr_shift (e : Endian) (us : List Val) : Shift4 (wWStr .v2 e us) := by
   have hl := wList_shift (fun v q => wPrim .v2 e .u16 v.unit q) us (fun v _ => wPrim_shift e .u16 v.unit)
   simp only [wWStr, wPrim_shift e .u32 _ p, hl (wPrim .v2 e .u32 ((us.length + 1) % 2 ^ 32) p).2, wPrim_shift e .u16 0 _]
 
+theorem wUnion_shift (e : Endian) (disc : Prim) (g : Nat → Val → Nat → W) (fs : List Val)
+    (hg : ∀ bid v, Shift4 (g bid v)) : Shift4 (wUnion .v2 e disc g fs) := by
+  intro q
+  simp only [wUnion]
+  split
+  · rename_i d bid v
+    simp only [wPrim_shift e disc d q, hg bid v (wPrim .v2 e disc d q).2]
+  · rename_i d
+    exact wPrim_shift e disc d q
+  · rfl
+
 theorem wDh_shift (e : Endian) (body : Nat → W) (h : Shift4 body) : Shift4 (wDh .v2 e body) := by
   intro p
   have hp := wPad_v2_shift 4 p (by simp)
@@ -105,16 +116,15 @@ theorem ser_shift (cfg : Cfg) (e : Endian) : (t : Ty) → (v : Val) → Shift4 (
     refine wDh_shift e _ (emit2_shift e _ ?_) q
     intro c hc
     exact chunks_shift cfg e ms fs c ((mem_sortChunks c _).mp hc)
-  | .union disc bs, .struct fs => by
+  | .union app disc bs, .struct fs => by
     intro q
+    have hU : Shift4 (wUnion .v2 e disc (serB cfg .v2 e bs) fs) :=
+      wUnion_shift e disc _ fs (fun bid v => serB_shift cfg e bs bid v)
     simp only [ser]
     split
-    · rename_i d id v
-      simp only [wPrim_shift e disc d q, serB_shift cfg e bs id v (wPrim .v2 e disc d q).2]
-    · rename_i d
-      exact wPrim_shift e disc d q
-    · rfl
-  | .union _ _, .num _ | .union _ _, .str _ | .union _ _, .list _ | .union _ _, .absent => by intro q; simp [ser]
+    · exact wDh_shift e _ hU q
+    · exact hU q
+  | .union _ _ _, .num _ | .union _ _ _, .str _ | .union _ _ _, .list _ | .union _ _ _, .absent => by intro q; simp [ser]
   | .prim _, .str _ | .prim _, .list _ | .prim _, .struct _ | .prim _, .absent => by intro q; simp [ser]
   | .str, .num _ | .str, .list _ | .str, .struct _ | .str, .absent => by intro q; simp [ser]
   | .enum _ _ _, .str _ | .enum _ _ _, .list _ | .enum _ _ _, .struct _ | .enum _ _ _, .absent => by intro q; simp [ser]
